@@ -201,6 +201,38 @@ fn toy_moduli(ctx: &Ctx, idx: u64) {
             }
         }
     }
+    // commitment keys over caller-supplied toy issuer moduli: h is a QR > 1 and every g_i lies in <h>
+    for (p, q) in [(7u32, 11u32), (11, 23), (23, 47), (47, 59), (59, 83)] {
+        let nn = p * q;
+        let case = format!("toy-commitment-key/{}", nn);
+        ctx.distinct(&case);
+        for _ in 0..ctx.t(40, 400) {
+            let Some(ck) = ctx.call("CommitmentPublicKey::generate(toy N)", &case, None, || {
+                Ok::<_, ()>(CL03CommitmentPublicKey::generate::<zkryptium::cl03::ciphersuites::CL1024Sha256>(Some(Integer::from(nn)), Some(3)))
+            }).value else {
+                ctx.violation("C18:commitment-key-generation-panicked", json!({"N":nn}));
+                continue;
+            };
+            let h = ck.h.to_u32().unwrap_or(0);
+            let mut sub = std::collections::HashSet::new();
+            let mut x = 1u64;
+            loop {
+                x = x * h as u64 % nn as u64;
+                if !sub.insert(x as u32) {
+                    break;
+                }
+            }
+            for g in &ck.g_bases {
+                let gv = g.to_u32().unwrap_or(0);
+                if gv <= 1 || gv >= nn || gcd_u32(gv, nn) != 1 {
+                    ctx.violation("C18:commitment-key-base-ill-formed", json!({"N":nn,"g":gv,"h":h}));
+                } else if !sub.contains(&gv) {
+                    ctx.violation("C18:commitment-key-base-outside-subgroup-of-h", json!({"N":nn,"g":gv,"h":h,"order_of_h":sub.len()}));
+                }
+            }
+            ctx.count("toy_commitment_keys", 1);
+        }
+    }
     for bits in [2u32, 3, 8, 16, 64, 258] {
         let case = format!("random_prime/{}", bits);
         ctx.distinct(&case);
